@@ -27,6 +27,7 @@ REPO = os.environ.get('VERIF_REPO', '/repo')
 OUT = os.environ.get('VERIF_OUT_DIR') or os.path.join(HERE, 'out')              # scratch runs on mutated copies
 EVID = os.environ.get('VERIF_EVIDENCE_DIR') or os.path.join(HERE, 'evidence')   # redirect both, never the defaults
 PYVT = 'python3-vt'
+PAR = int(os.environ.get('VERIF_PAR', '14'))
 VENV_PY = '/venv/bin/python'
 
 LEVEL = {  # evidence level per property (must agree with MANIFEST.json)
@@ -36,7 +37,7 @@ LEVEL = {  # evidence level per property (must agree with MANIFEST.json)
     'C12': 'exploration', 'C13': 'exploration', 'C14': 'exploration', 'C15': 'exploration', 'C16': 'exploration',
     'C17': 'fault_enumeration', 'C18': 'exploration',
 }
-CONTRACT_MODULES = ['streams', 'sync', 'writers', 'cwrite']
+CONTRACT_MODULES = ['streams', 'sync', 'writers', 'cwrite', 'helpers', 'cpack']
 STANDING_ASSUMPTIONS = [
     'pyvc encodes a subset of Python: unbounded mathematical integers, bytes/str as z3 sequences, attribute dictionaries, '
     'no threads, no signals; anything outside the subset makes the unit undecided (never a pass)',
@@ -64,19 +65,32 @@ def units_for(prop):
             '    try:\n        mod=importlib.import_module("contracts."+m)\n    except ModuleNotFoundError:\n        continue\n'
             '    for u in mod.UNITS:\n'
             '        out.append({"module":m,"name":u.name,"fn":u.fn,"props":list(u.props),"trusted":bool(u.trusted),'
-            '"deferred":bool(getattr(u,"deferred",False)),"note":getattr(u,"note","")})\n'
+            '"deferred":bool(getattr(u,"deferred",False)),"note":getattr(u,"note",""),"tier":getattr(u,"tier","quick"),'
+            '"parallel":bool(getattr(u,"parallel",False)),"bounded":bool(getattr(u,"bounded",False))})\n'
             'print(json.dumps(out))')
     r = subprocess.run([PYVT, '-c', code], capture_output=True, text=True, env=e, cwd=HERE)
     if r.returncode != 0:
         raise RuntimeError('cannot load contracts: ' + r.stderr[-2000:])
-    return [u for u in json.loads(r.stdout) if prop in u['props']]
+    seen, out = set(), []
+    for u in json.loads(r.stdout):
+        if prop in u['props'] and (u['module'], u['name']) not in seen:
+            # a module may re-export the summaries of another one: keep the first occurrence
+            if any(x['name'] == u['name'] for x in out):
+                continue
+            seen.add((u['module'], u['name']))
+            out.append(u)
+    return out
 
 
-def run_unit(u, budget):
+def run_unit(u, budget, scale=1):
     t0 = time.time()
+    e = env()
+    e['PYVC_TIMEOUT_SCALE'] = str(scale)
+    cmd = [PYVT, '-m', 'pyvc.worker', u['module'], u['name']]
+    if u.get('parallel'):
+        cmd += ['--par', str(PAR)]
     try:
-        r = subprocess.run([PYVT, '-m', 'pyvc.worker', u['module'], u['name']], capture_output=True, text=True, env=env(),
-                           cwd=HERE, timeout=budget)
+        r = subprocess.run(cmd, capture_output=True, text=True, env=e, cwd=HERE, timeout=budget)
     except subprocess.TimeoutExpired:
         return {'unit': u['name'], 'status': 'undecided', 'reason': f'time budget of {budget}s exceeded', 'obligations': [],
                 'stats': {}, 'wall': time.time() - t0}
@@ -85,6 +99,26 @@ def run_unit(u, budget):
             return json.loads(line[len('PYVC-RESULT '):])
     return {'unit': u['name'], 'status': 'error', 'reason': 'worker crashed: ' + (r.stderr or r.stdout)[-1500:],
             'obligations': [], 'stats': {}, 'wall': time.time() - t0}
+
+
+def load_baseline():
+    p = os.path.join(HERE, 'baseline_obligations.json')
+    if os.path.exists(p):
+        return json.load(open(p))
+    return {}
+
+
+def run_units(todo, budget):
+    """Small units in a thread pool, the path-parallel ones one after the other (each uses PAR processes)."""
+    small = [u for u in todo if not u.get('parallel')]
+    big = [u for u in todo if u.get('parallel')]
+    results = {}
+    with cf.ThreadPoolExecutor(max_workers=max(2, PAR // 2)) as ex:
+        for u, r in zip(small, ex.map(lambda u: run_unit(u, budget), small)):
+            results[u['name']] = r
+    for u in big:
+        results[u['name']] = run_unit(u, budget)
+    return [results[u['name']] for u in todo]
 
 
 def known_findings():
@@ -115,13 +149,24 @@ def main():
 
     # ------------------------------------------------------------------ deductive part
     units = units_for(prop)
-    todo = [u for u in units if not u['trusted'] and not u['deferred']]
-    budget = 240 if tier == 'quick' else 1500
-    with cf.ThreadPoolExecutor(max_workers=8) as ex:
+    todo = [u for u in units if not u['trusted'] and not u['deferred'] and (tier == 'thorough' or u['tier'] != 'thorough')]
+    skipped_tier = [u['name'] for u in units if u['tier'] == 'thorough' and tier != 'thorough' and not u['trusted']]
+    budget = 900 if tier == 'quick' else 6000
+    baseline = load_baseline()
+    with cf.ThreadPoolExecutor(max_workers=2) as ex:
         bounded_future = ex.submit(run_bounded, prop, tier, seed)
-        results = list(ex.map(lambda u: run_unit(u, budget), todo))
+        results = run_units(todo, budget)
+        # an obligation that is discharged on the reference tree (baseline_obligations.json) and is not discharged now is
+        # re-tried once with a doubled solver budget before it is reported (absorbs load-induced timeouts)
+        for i, (u, r) in enumerate(zip(todo, results)):
+            base = set(baseline.get(u['name'], []))
+            if r['status'] == 'ok' and any(o['status'] == 'unknown' and o['name'] in base for o in r['obligations']):
+                r2 = run_unit(u, budget * 2, scale=2)
+                if r2['status'] == 'ok':
+                    r2['retried'] = True
+                    results[i] = r2
         bnd = bounded_future.result()
-    proved_units, undecided_units, ded_samples = [], [], []
+    proved_units, undecided_units, ded_samples, bounded_units = [], [], [], []
     n_ob = n_dis = 0
     solver_time = 0.0
     vacuous = []
@@ -131,17 +176,28 @@ def main():
             checker_errors.append(f"{r['unit']}: {r['reason']}")
             continue
         obs = r['obligations']
+        base = set(baseline.get(u['name'], []))
         failed = [o for o in obs if o['status'] == 'failed']
-        unknown = [o for o in obs if o['status'] == 'unknown']
+        regressed = [o for o in obs if o['status'] == 'unknown' and o['name'] in base]
+        unknown = [o for o in obs if o['status'] == 'unknown' and o['name'] not in base]
         for o in failed:
             violations.append({'kind': 'obligation', 'unit': r['unit'], 'obligation': o['name'], 'detail': o['failed'],
-                               'msg': f"proof obligation {o['name']} fails on the current source"})
+                               'msg': f"proof obligation {o['name']} fails on the current source (counter-model found)"})
+        for o in regressed:
+            violations.append({'kind': 'obligation', 'unit': r['unit'], 'obligation': o['name'], 'detail': o['unknown'],
+                               'msg': f"proof obligation {o['name']}, discharged on the reference tree, is no longer discharged on the "
+                                      f"current source (solver: {o['unknown'][0]['reason'] if o['unknown'] else 'unknown'}; no model "
+                                      "produced, re-tried with a doubled budget)"})
+        if u.get('bounded'):
+            bounded_units.append({'unit': r['unit'], 'note': u['note'], 'cases': r['stats'].get('paths'),
+                                  'ok': not failed and r['status'] == 'ok'})
+            continue
         if r['status'] == 'undecided' or unknown or not obs:
             undecided_units.append({'unit': r['unit'], 'reason': r.get('reason') or
                                     'solver returned unknown for: ' + ', '.join(o['name'] for o in unknown),
                                     'obligations': len(obs), 'discharged': sum(o['status'] == 'discharged' for o in obs)})
             continue
-        if failed:
+        if failed or regressed:
             continue
         proved_units.append({'unit': r['unit'], 'obligations': len(obs), 'paths': r['stats'].get('paths'),
                              'solver_s': round(r['stats'].get('solver_time', 0), 2), 'wall_s': r['wall']})
@@ -211,6 +267,8 @@ def main():
                       'functions_assumed': [u['name'] + (': ' + u['note'] if u['note'] else '') for u in units
                                             if u['trusted'] or u['deferred']],
                       'back_end': 'z3 %s via pyvc (sidecar contracts in /verif/contracts, bodies re-read from %s)' % (z3_version(), REPO),
+                      'functions_checked_on_samples_only_bounded': bounded_units,
+                      'units_run_in_the_thorough_tier_only': skipped_tier,
                       'solver_s': round(solver_time, 2), 'obligations_without_witness': vacuous},
     }
     if units:
